@@ -142,7 +142,7 @@ def json_to_node(j):
 def meta_tok(meta):
     if meta is None:
         return 'none'
-    return f'{meta.start.isoformat() if meta.start else None}|{meta.duration.total_seconds() if meta.duration else None}'
+    return f'{meta.start.isoformat() if meta.start is not None else None}|{meta.duration.total_seconds() if meta.duration is not None else None}'
 
 
 def _mainv_post_init(self):
